@@ -7,7 +7,7 @@ import typing as t
 
 from sa import layout
 from sa.intervals import World
-from sa.load import AnalysisError, Cls, Repo, body_nodes, unparse
+from sa.load import AnalysisError, Cls, Func, Repo, body_nodes, unparse
 from sa.loops import LoopChecker
 from sa.report import Check, Site
 from sa.sym import Lin
@@ -357,6 +357,48 @@ def decoders_bounded(repo: Repo, chk: Check, rule: str, modules: t.Sequence[str]
 
 
 # ----------------------------------------------------------- O4 registries
+def _plain_attrs(e: ast.AST) -> str:
+    """Text of an expression with getattr(x, "name") written as x.name."""
+
+    class G(ast.NodeTransformer):
+        def visit_Call(self, node: ast.Call) -> ast.AST:
+            self.generic_visit(node)
+            if isinstance(node.func, ast.Name) and node.func.id == "getattr" and len(node.args) == 2 and not node.keywords and isinstance(node.args[1], ast.Constant) and isinstance(node.args[1].value, str):
+                return ast.copy_location(ast.Attribute(value=node.args[0], attr=node.args[1].value, ctx=ast.Load()), node)
+            return node
+
+    import copy as _copy
+
+    return unparse(G().visit(_copy.deepcopy(e)))
+
+
+def _registry_store(repo: Repo, fn: Func, key: str) -> bool:
+    """The decorator's only store is  REG[<key>] = cls._unpack  into one module-level table REG (whatever it is called)
+    that some other function of the module reads (the dispatcher)."""
+    from sa.normalize import stored_names
+
+    stores = [n for n in ast.walk(fn.node) if isinstance(n, ast.Assign) and any(isinstance(tg, ast.Subscript) for tg in n.targets)]
+    if len(stores) != 1 or len(stores[0].targets) != 1:
+        return False
+    tg = t.cast(ast.Subscript, stores[0].targets[0])
+    if not isinstance(tg.value, ast.Name):
+        return False
+    reg = tg.value.id
+    local = set(fn.params)
+    for inner in ast.walk(fn.node):
+        if isinstance(inner, (ast.FunctionDef, ast.AsyncFunctionDef)):
+            local |= stored_names(inner) | {a.arg for a in inner.args.args}
+    if reg in local or reg not in fn.mod.consts:
+        return False
+    cls_param = next((a.arg for inner in ast.walk(fn.node) if isinstance(inner, (ast.FunctionDef, ast.AsyncFunctionDef)) for a in inner.args.args if a.arg == "cls"), None)
+    if cls_param is None:
+        return False
+    if _plain_attrs(tg.slice) != key or _plain_attrs(stores[0].value) != "cls._unpack":
+        return False
+    readers = [g for g in repo.funcs.values() if g.mod is fn.mod and g is not fn and any(isinstance(n, ast.Name) and n.id == reg and isinstance(n.ctx, ast.Load) for n in ast.walk(g.node))]
+    return bool(readers)
+
+
 def registries(repo: Repo, chk: Check, rule: str) -> None:
     reg = repo.registry("register_pdu")
     by_name = {getattr(k, "name", str(k)): v for k, v in reg.items()}
@@ -368,13 +410,11 @@ def registries(repo: Repo, chk: Check, rule: str) -> None:
         chk.count("registry entries")
         chk.ob(rule, Site(anchor.file, anchor.qual, (cls.node.lineno if cls else anchor.node.lineno), f"register_pdu(PacketType.{ptype}) -> {cname}"), ok, "registered with pack and _unpack" if ok else f"PacketType.{ptype} is registered for {cls.name if cls else 'nothing'}, expected {cname}")
     # the decorator must store the class' own _unpack under the given packet type
-    body = unparse(anchor.node)
-    ok = "_PACKET_TYPE_REGISTRY[packet_type] = getattr(cls, '_unpack')" in body
+    ok = _registry_store(repo, anchor, "packet_type")
     chk.ob(rule, Site.of(anchor, construct="register_pdu stores cls._unpack under packet_type"), ok, "" if ok else "register_pdu no longer stores cls._unpack under its packet_type argument")
-    for dec, regname, attr in (("register_cmd", "_COMMAND_TYPE_REGISTRY", "command"), ("register_floor", "_FLOOR_TYPE_REGISTRY", "protocol")):
+    for dec, attr in (("register_cmd", "command"), ("register_floor", "protocol")):
         fn = [f for f in repo.funcs.values() if f.name == dec][0]
-        txt = unparse(fn.node)
-        ok = f"{regname}[getattr(cls, '{attr}').default] = getattr(cls, '_unpack')" in txt
+        ok = _registry_store(repo, fn, f"cls.{attr}.default")
         chk.ob(rule, Site.of(fn, construct=f"{dec} stores cls._unpack under the default of cls.{attr}"), ok, "" if ok else f"{dec} no longer keys the registry by the class' {attr} default")
     cmds = repo.registry("register_cmd")
     floors = repo.registry("register_floor")
